@@ -76,6 +76,14 @@ def gen_cases(seed, tier):
         abort = buffer_req and rnd.random() < 0.1
         sse = rnd.random() < 0.15
         rs, ps = rnd.randint(0, 250), rnd.randint(0, 250)
+        if k % 12 == 7:
+            # a HEAD exchange: the target declares the resource's length (below / at / above max-response-body) and sends no
+            # body; status and headers must pass whatever the limit says
+            hl = rnd.choice([0, 1, max_resp, max_resp + 1, max_resp + 5000, 70000])
+            cases.append({"kind": "req", "buffer_req": buffer_req, "buffer_resp": buffer_resp, "maxm": maxm, "max_req": max_req,
+                          "max_resp": max_resp, "req_chunks": [], "abort": False, "resp_status": rnd.choice([200, 200, 404, 302]),
+                          "sse": False, "resp_chunks": [], "head_len": hl, "_req": [0, 0], "_resp": [0, 0]})
+            continue
         cases.append({
             "kind": "req", "buffer_req": buffer_req, "buffer_resp": buffer_resp, "maxm": maxm,
             "max_req": max_req, "max_resp": max_resp,
@@ -193,6 +201,11 @@ def run(tier, seed):
             "samples": [cases[0], cases[len(cases) // 2], cases[-1]],
             "correspondence": {"cases": len(cases), "disagreements": len([f for f in failing if not f[1]]),
                                "monitor_failures": len([f for f in failing if not f[2]])},
+            "head_exchanges": {"cases": len([c for c in cases if "head_len" in c]),
+                               "declared_length_above_the_response_limit": len([c for c in cases if "head_len" in c and c["buffer_resp"]
+                                                                                and 0 < c["max_resp"] < c["head_len"]]),
+                               "declared_length_reached_the_client": len([1 for c, o in zip(cases, obs) if "head_len" in c
+                                                                          and o.get("clen") == str(c["head_len"])])},
         })
         res.assumptions = [
             "model/Buffer.v is hand-written; tied to buffer.go and the two middlewares only by this correspondence run",
